@@ -444,7 +444,47 @@ func (f Fact) String() string {
 
 func (f Fact) Not() Fact { return Fact{f.T, !f.Neg} }
 
-func (f Fact) Subst(m map[string]*Term) Fact { return normFact(Fact{f.T.Subst(m), f.Neg}) }
+func (f Fact) Subst(m map[string]*Term) Fact { return normFact(Fact{boolSimplify(f.T.Subst(m)), f.Neg}) }
+
+// SubstAll substitutes and re-decomposes (a substituted conjunction may split).
+func (f Fact) SubstAll(m map[string]*Term) []Fact {
+	t := boolSimplify(f.T.Subst(m))
+	return condFacts(t, !f.Neg)
+}
+
+// boolSimplify folds boolean constants introduced by substitution.
+func boolSimplify(t *Term) *Term {
+	if t == nil || t.Op == "" {
+		return t
+	}
+	switch t.Op {
+	case "&&", "||":
+		a, b := boolSimplify(t.A[0]), boolSimplify(t.A[1])
+		unit, zero := "#true", "#false"
+		if t.Op == "||" {
+			unit, zero = "#false", "#true"
+		}
+		switch {
+		case a.IsAt(zero) || b.IsAt(zero):
+			return atom(zero)
+		case a.IsAt(unit):
+			return b
+		case b.IsAt(unit):
+			return a
+		}
+		return mk(t.Op, a, b)
+	case "!":
+		a := boolSimplify(t.A[0])
+		if a.IsAt("#true") {
+			return atom("#false")
+		}
+		if a.IsAt("#false") {
+			return atom("#true")
+		}
+		return mk("!", a)
+	}
+	return t
+}
 
 // normFact canonicalises comparison operators and polarity.
 func normFact(f Fact) Fact {
